@@ -388,7 +388,11 @@ func c06OneBranch(c *Ctx, T *ssa.Function, condH *ssa.Function, d *Dispatcher) {
 		if branchEval != nil {
 			good := false
 			for _, ret := range r.Returns {
-				if k, ok := ret.Results[1].(*ssa.Const); ok && k.Value == nil {
+				k, isK := ret.Results[1].(*ssa.Const)
+				nilErr := isK && k.Value == nil
+				// `return r.resolve(ctx, child)`: the pair of the branch evaluation itself
+				pair := isResultOf(ret.Results[0], branchEval, 0) && isResultOf(ret.Results[1], branchEval, 1)
+				if nilErr || pair {
 					for _, rt := range plainOrigins.Roots(ret.Results[0]) {
 						if rt.Kind == "call" && rt.V == ssa.Value(branchEval) && rt.Idx == 0 && len(rt.Path) == 0 {
 							good = true
